@@ -17,11 +17,19 @@ Units (all read the real bodies from /repo - or $VERIF_REPO - on every run):
                                  otherwise one new class Path_<mode> over a Path subclass carrying mode / skip_check / str, registered under that key with _is_path_type
   object_path_serializer         returns a path only if importing that path gives the very object back; every failure is a ValueError chained to its cause
   get_module_var_path            module_path.NAME of the first module variable that *is* the value (identity, not equality); None when there is none
-  range_serializer               [see section below] the canonical text for ALL integers start/stop/step (step != 0)
-  range_deserializer             for ALL strings: accepted => the text is range(INT[,INT[,INT]]) (blanks ignored) and the result is the range denoted;
-                                 the canonical text of every (start, stop, step) - every integer, negative, zero, step 1 - gives exactly that range back;
-                                 everything else is ValueError (AttributeError for a non-string, which RegisteredType.deserializer turns into ValueError)
-  timedelta_deserializer         [see section below] for ALL strings / ALL durations (days, seconds, microseconds symbolic)
+  range_serializer               for ALL integers start/stop/step (step != 0): the text is Python's range notation denoting exactly (start, stop, step) - an omitted
+                                 start is 0, an omitted step is 1 - and the decimal texts written spell the integers (str.from_int / str.to_int)
+  range_deserializer             round trip: for ALL decimal texts in -?[0-9]+ (where str(int) lies) the three canonical forms give exactly the range back (negative,
+                                 zero, step 1 / -1; only step 0 is refused).  For ALL strings: accepted => up to white space the text is range(...), between the
+                                 parentheses stand, blanks removed, one to three integers separated by commas, and the result is the range they denote; every
+                                 rejection is a ValueError (AttributeError for a non-string, which RegisteredType.deserializer turns into ValueError)
+  timedelta_deserializer         round trip: for ALL normalised durations (days in +-999999999 incl. negative and the singular 'day', any second of the day, any
+                                 microsecond) the text str(timedelta) writes - a spec function, stated in `trusted` - gives an equal timedelta back.  For ALL
+                                 strings: only ValueError escapes (REFUTED on this tree: OverflowError for out-of-range numbers), the whole text is consumed
+                                 (REFUTED: '0:00:01abc' is read as one second), the components are the numbers at their places; a non-string is a ValueError
+Shared models: str.strip (exact, 29 white-space code points), re.match with groups for the deterministic fragment (match_model), int()/float() of decimal
+texts, range(), timedelta().  Cut lemmas ("the groups matched are the texts written") are proved obligations, then used; hypotheses are sliced by theory
+(fewer hypotheses = stronger statement) because neither solver copes with word equations and arithmetic at once.
 """
 import z3
 
@@ -519,7 +527,6 @@ WS1 = z3.Union(*[z3.Re(c) for c in PY_WS])
 WS = z3.Star(WS1)
 ANY1 = z3.AllChar(z3.ReSort(S))
 NONWS1 = z3.Intersect(ANY1, z3.Complement(WS1))
-STRIPPED = z3.Union(z3.Re(""), NONWS1, z3.Concat(NONWS1, z3.Star(ANY1), NONWS1))   # strings that str.strip() leaves alone
 
 
 def _fork(ctx, cond, label):
@@ -578,7 +585,8 @@ def strip_model(ctx, value):
         return value
     pre, r, post = ctx.fresh("strip.pre", S), ctx.fresh("strip.result", S), ctx.fresh("strip.post", S)
     ctx.assume(value == z3.Concat(pre, r, post))
-    ctx.assume(z3.And(z3.InRe(pre, WS), z3.InRe(post, WS), z3.InRe(r, STRIPPED)))
+    m = z3.Length(r)
+    ctx.assume(z3.And(z3.InRe(pre, WS), z3.InRe(post, WS), z3.Or(r == z3.StringVal(""), z3.And(z3.Not(z3.InRe(z3.SubString(r, 0, 1), WS1)), z3.Not(z3.InRe(z3.SubString(r, m - 1, 1), WS1))))))
     ctx.ghost["strip"] = (pre, r, post)
     return r
 
@@ -822,8 +830,6 @@ def rs_post(ctx, st, result):
 
 RD_KINDS = ["range(STOP)", "range(START, STOP)", "range(START, STOP, STEP)", "any string", "not a string"]
 RANGE_NAMES = ("re_range_stop", "re_range_start_stop", "re_range_start_stop_step")
-# what str(int) produces: 0, or an optional minus and digits without a leading zero
-INT_CANON = z3.Union(z3.Re("0"), z3.Concat(z3.Option(z3.Re("-")), z3.Range("1", "9"), z3.Star(z3.Range("0", "9"))))
 
 
 def squeeze_hook(pieces_of):
@@ -1103,7 +1109,8 @@ def td_setup(ctx):
     want = None
     ctx.ghost["no-prune"] = True   # (the solvers decide which paths are possible, in parallel, when the obligations are discharged)
     if kind == "not a string":
-        value = [z3.Int("value"), None, z3.Bool("value")][ctx.choose(3, "non-string")]
+        # (records, so that `"day" in value` has Python's answer for them: TypeError for an int, False for a list)
+        value = [Rec("int", methods={"__contains__": lambda c, s_, a, k: _raise("TypeError", "'day' in 5")}), Rec("list", methods={"__contains__": lambda c, s_, a, k: False})][ctx.choose(2, "non-string")]
     elif kind == "any string":
         value = z3.String("value")
         ctx.ghost["no-prune"] = True
@@ -1176,8 +1183,12 @@ def _td_cut(ctx, d, tag):
                 ctx.oblige("lemma", "a-suffix-of-a-text-over-a-character-class-is-a-text-over-that-class" + tag, z3.Implies(z3.And(z0 == z3.Concat(x0, y0), z3.InRe(z0, cstar)), z3.InRe(y0, cstar)), strings=True)
                 ctx.obligations[-1].hyps = []
                 ctx.assume(z3.InRe(tail_, cstar))   # (the instance for: what is left, the last piece, the tail - with the two facts just proved)
-            goal = z3.And(piece == rest, m.attrs["$tail"] == p(""))
-            ctx.oblige("lemma", "the-last-piece-matched-is-SS[.UUUUUU]-and-nothing-is-left-unmatched" + tag, goal, strings=True)
+            # (which solver goes first: cvc5 is quick when float() went through, z3 on the paths where float() refused a text)
+            ctx.oblige("lemma", "nothing-is-left-unmatched" + tag, m.attrs["$tail"] == p(""), strings=len(ctx.ghost.get("floats", [])) >= (4 if with_days else 3))
+            _sliced(ctx, "cut")
+            ctx.assume(m.attrs["$tail"] == p(""))
+            goal = piece == rest
+            ctx.oblige("lemma", "the-last-piece-matched-is-SS[.UUUUUU]" + tag, goal, strings=True)
         elif z3.is_string_value(piece):
             if not (z3.is_string_value(parts[k]) and parts[k].as_string() == piece.as_string()):
                 break
@@ -1198,7 +1209,6 @@ def _td_slice(ctx, d, overflow):
     """Which theory decides the final obligation of a round-trip path: a path on which float() took the seconds for an integer text although
     microseconds were written (or the other way round), or on which a text was not a number, is impossible by the strings alone; otherwise the numbers decide."""
     with_us = d["kind"].endswith("UUUUUU")
-    secs = [shape for x, shape, a, b, r in ctx.ghost.get("floats", []) if shape == "frac" or len(ctx.ghost.get("floats", [])) >= (4 if d["kind"].startswith("D days") else 3)]
     shape = ctx.ghost.get("floats", [(None, None)])[-1][1] if len(ctx.ghost.get("floats", [])) >= (4 if d["kind"].startswith("D days") else 3) else None
     if shape is None or (shape == "frac") != with_us:
         return "strings"
@@ -1301,6 +1311,6 @@ def units(prop):
     ]
 
 
-CARRIES = {"C20": ["RegisteredType.__init__", "RegisteredType.__eq__", "SecretStr.__init__", "SecretStr.get_secret_value", "SecretStr.__len__", "SecretStr.__hash__", "SecretStr.__eq__", "bytes_serializer",
+CARRIES = {"C20": ["range_serializer", "range_deserializer", "timedelta_deserializer", "RegisteredType.__init__", "RegisteredType.__eq__", "SecretStr.__init__", "SecretStr.get_secret_value", "SecretStr.__len__", "SecretStr.__hash__", "SecretStr.__eq__", "bytes_serializer",
                    "bytes_deserializer", "bytearray_deserializer", "add_type", "register_type_on_first_use", "_is_path_type", ":path_type", "object_path_serializer", "get_module_var_path"],
-           "C01": ["bytes_serializer", "bytes_deserializer", "bytearray_deserializer", "object_path_serializer"]}
+           "C01": ["range_serializer", "range_deserializer", "timedelta_deserializer", "bytes_serializer", "bytes_deserializer", "bytearray_deserializer", "object_path_serializer"]}
